@@ -73,6 +73,156 @@ def infinity_guard(ctx, sites):
                        "Infinity (sibling producers guard it)" % i.line(), loc=i.line())
 
 
+COSTS = "model::config::CostsConfig"
+COST_DEF_ATOMS = [field(COSTS, "service_trip"), field(COSTS, "maintenance"), field(COSTS, "dead_head_trip"), field(COSTS, "idle"),
+                  call(N("dead_head_time_between")), call(N("idle_time_between")), call(ND("duration"))]
+DHD_BETWEEN = call(N("dead_head_distance_between"))
+UTF = S("update_train_formation")
+
+
+def source_sets(ctx):
+    """R3 (T9): every incremental helper uses at least the inputs of the from-scratch definition"""
+    must_depend(ctx, "R3.definition.costs", "T1", T("compute_costs_of_nodes"), "ret", COST_DEF_ATOMS,
+                "from-scratch tour costs use the four rates, dead-head time, idle time and durations")
+    for helper in ("costs_of_segment", "costs_of_new_nodes"):
+        must_depend(ctx, "R3.%s.agrees-with-definition" % helper, "T9", T(helper), "ret", COST_DEF_ATOMS,
+                    "%s uses every input of the from-scratch cost definition" % helper)
+    for helper in ("dead_head_distance_of_segment", "dead_head_distance_of_new_nodes"):
+        must_depend(ctx, "R3.%s.agrees-with-definition" % helper, "T9", T(helper), "ret", [DHD_BETWEEN, field(TOUR, "nodes")],
+                    "%s sums Network::dead_head_distance_between like the from-scratch definition" % helper)
+    must_depend(ctx, "R3.definition.dead-head-distance", "T1", T("compute_dead_head_distance_of_nodes"), "ret", [DHD_BETWEEN, "param:1"],
+                "from-scratch dead-head distance sums dead_head_distance_between over consecutive nodes")
+    must_depend(ctx, "R3.definition.service-distance", "T1", T("compute_service_distance_of_nodes"), "ret", [call(ND("travel_distance")), "param:1"],
+                "from-scratch service distance sums the nodes' travel distances")
+    must_depend(ctx, "R3.definition.useful-duration", "T1", T("compute_useful_duration_of_nodes"), "ret", [call(ND("duration")), "param:1"],
+                "from-scratch useful duration sums the nodes' durations")
+    must_depend(ctx, "R3.definition.visits-maintenance", "T1", T("compute_visits_maintenance"), "ret", [call(ND("is_maintenance")), "param:1"],
+                "from-scratch visits-maintenance scans the nodes for a maintenance slot")
+    # per-operand source sets of the four incremental producers
+    cm = prov.ctor_map(ctx.prog, common.TOUR_PRE, TOUR)
+    table = {
+        T("replace_start_depot"): {"dead_head_distance": [DHD_BETWEEN, DHD_FIELD, "param:2"],
+                                   "costs": [field(TOUR, "costs"), call(N("dead_head_time_between")), field(COSTS, "dead_head_trip"), "param:2"]},
+        T("replace_end_depot"): {"dead_head_distance": [DHD_BETWEEN, DHD_FIELD, "param:2"],
+                                 "costs": [field(TOUR, "costs"), call(N("dead_head_time_between")), field(COSTS, "dead_head_trip"), "param:2"]},
+        T("remove"): {"dead_head_distance": [DHD_FIELD, call(T("dead_head_distance_of_segment")), DHD_BETWEEN],
+                      "costs": [field(TOUR, "costs"), call(T("costs_of_segment")), call(T("dead_head_and_idle_costs_between_two_nodes"))],
+                      "useful_duration": [field(TOUR, "useful_duration"), call(ND("duration"))],
+                      "service_distance": [field(TOUR, "service_distance"), call(ND("travel_distance"))],
+                      "visits_maintenance": [field(TOUR, "visits_maintenance"), call(ND("is_maintenance"))]},
+        T("insert_path"): {"dead_head_distance": [DHD_FIELD, call(T("dead_head_distance_of_segment")), call(T("dead_head_distance_of_new_nodes"))],
+                           "costs": [field(TOUR, "costs"), call(T("costs_of_segment")), call(T("costs_of_new_nodes"))],
+                           "useful_duration": [field(TOUR, "useful_duration"), call(ND("duration")), "param:2"],
+                           "service_distance": [field(TOUR, "service_distance"), call(ND("travel_distance")), "param:2"],
+                           "visits_maintenance": [field(TOUR, "visits_maintenance"), call(ND("is_maintenance")), "param:2"]},
+    }
+    for key, fields in table.items():
+        fd = ctx.fd(key)
+        sites = [c for c in fd.body.calls() if c.callee == common.TOUR_PRE] if fd is not None else []
+        for fld, req in fields.items():
+            o = ctx.ob("R3.%s.%s.sources" % (common.short(key), fld), "T9", key,
+                       "%s derives the new %s from %s" % (common.short(key), fld, ", ".join(x.split("::")[-1] for x in req)))
+            if fd is None or len(sites) != 1 or cm is None:
+                o.status = "anchor-missing"
+                o.detail = "construction site not found"
+                continue
+            op = sites[0].args[cm[fld] - 1]
+            # short-circuit && / || turn data into control: the boolean flag is sliced with control dependence
+            at = (fd.slice_operand_data(sites[0], op) if fld == "visits_maintenance" else fd.slice_operand_pure(sites[0], op))["atoms"]
+            miss = missing_atoms(at, req)
+            ctx.decide(o, not miss, "", "the new %s in %s does not derive from %s" % (fld, common.short(key), fmt_missing(miss)), loc=sites[0].line())
+
+
+def recomputed_from_new_nodes(ctx):
+    """whatever is recomputed from scratch, or scanned for maintenance, is computed on the NEW node sequence"""
+    cm = prov.ctor_map(ctx.prog, common.TOUR_PRE, TOUR)
+    for key in (T("replace_start_depot"), T("replace_end_depot"), T("insert_path")):
+        fd = ctx.fd(key)
+        if fd is None or cm is None:
+            continue
+        site = [c for c in fd.body.calls() if c.callee == common.TOUR_PRE]
+        if len(site) != 1:
+            continue
+        nodes_op = site[0].args[cm["nodes"] - 1]
+        new_nodes = root_local(fd, nodes_op.place.local) if nodes_op.place is not None else None
+        for c in calls_to(fd, T("compute_dead_head_distance_of_nodes")):
+            o = ctx.ob("R3.%s.recompute-on-new-nodes" % common.short(key), "T1", key,
+                       "%s: the from-scratch recomputation runs on the new node sequence (the one stored in the result)" % common.short(key))
+            o.loc = c.line()
+            ls = fd.slice_operand_pure(c, c.args[0])["locals"]
+            ctx.decide(o, new_nodes in ls, "argument is the new node vector",
+                       "compute_dead_head_distance_of_nodes at %s is applied to a node sequence other than the one stored in the new tour "
+                       "(e.g. the old self.nodes): the cache describes the old tour" % c.line(), loc=c.line())
+    for key in (T("remove"), T("insert_path")):
+        fd = ctx.fd(key)
+        if fd is None or cm is None:
+            continue
+        site = [c for c in fd.body.calls() if c.callee == common.TOUR_PRE]
+        if len(site) != 1:
+            continue
+        nodes_op = site[0].args[cm["nodes"] - 1]
+        vm_op = site[0].args[cm["visits_maintenance"] - 1]
+        new_nodes = root_local(fd, nodes_op.place.local) if nodes_op.place is not None else None
+        o = ctx.ob("R3.%s.visits-maintenance-looks-at-remaining-nodes" % common.short(key), "T1", key,
+                   "%s: the new visits-maintenance flag depends on the nodes that remain in the tour (a second slot may remain)" % common.short(key))
+        o.loc = site[0].line()
+        ls = fd.slice_operand_data(site[0], vm_op)["locals"]
+        ctx.decide(o, new_nodes in ls, "flag depends on the new node vector",
+                   "the visits-maintenance flag of the new tour does not look at the remaining nodes: removing/displacing one of two "
+                   "maintenance slots clears (or keeps) the flag wrongly", loc=site[0].line())
+
+
+def cost_delta_form(ctx, s_sites):
+    """u64 cost deltas are applied as (running + new) - old, never as new - old"""
+    TC = T("costs")
+    for s in s_sites:
+        fd = ctx.an.fd(s.fn)
+        for ins in fd.body.instrs():
+            if ins.kind != "assign" or ins.rv_kind() != "binop" or not ins.rv["op"].startswith("Sub") or not ins.rv.get("aty", "").startswith("u64"):
+                continue
+            rhs = fd.slice_operand_pure(ins, ins.ops[1])["atoms"]
+            if call(TC) not in rhs:
+                continue
+            lhs = fd.slice_operand_pure(ins, ins.ops[0])["atoms"]
+            o = ctx.ob("R3.%s.cost-delta-cannot-underflow#%s" % (common.short(s.fn), ins.bb), "T5", s.fn,
+                       "%s: a tour's costs are subtracted from the running total, not from another tour's costs" % common.short(s.fn))
+            o.loc = ins.line()
+            ctx.decide(o, field(SCHEDULE, "costs") in lhs or "param:" in " ".join(a for a in lhs if a.startswith("param:") and a != "param:1"),
+                       "minuend derives from the running total", "`new_tour.costs() - old_tour.costs()` at %s: unsigned subtraction of two tour "
+                       "costs underflows whenever the new tour is cheaper" % ins.line(), loc=ins.line())
+
+
+def formation_update_order(ctx):
+    """R5: in update_train_formation the 'before' value is read before the formation is replaced, the 'after' value after"""
+    o, fd = ctx.require_fn("R5.unserved-before-and-after", "T10", UTF,
+                           "unserved passengers at a node are subtracted for the old formation and added for the new one")
+    if fd is None:
+        return
+    cu = calls_to(fd, S("compute_unserved_passengers_at_node"))
+    ins = [c for c in fd.body.calls() if (c.callee or "").endswith("HashMap::insert") and len(c.args) == 3]
+    ok = len(cu) == 2 and len(ins) >= 1
+    detail = "expected two compute_unserved_passengers_at_node calls around one insert, found %d/%d" % (len(cu), len(ins))
+    if ok:
+        i = ins[0]
+        before = [c for c in cu if fd.cfg.instr_dominates(c, i) or c.bb in _preds_closure(fd, i.bb)]
+        after = [c for c in cu if fd.cfg.instr_dominates(i, c)]
+        ok = len(after) == 1 and len([c for c in cu if c not in after]) == 1
+        detail = "one evaluation precedes the formation insert, one follows it" if ok else "the two evaluations do not bracket the formation insert"
+    ctx.decide(o, ok, detail, detail)
+
+
+def _preds_closure(fd, bb):
+    seen = set()
+    wl = [bb]
+    while wl:
+        b = wl.pop()
+        for p in fd.cfg.pred[b]:
+            if p not in seen:
+                seen.add(p)
+                wl.append(p)
+    return seen
+
+
 def rules(ctx):
     s_sites = common.coupled_updates(ctx, "R1", SCHEDULE, common.SCHEDULE_PAIRS, floor=13)
     t_sites = common.coupled_updates(ctx, "R1", TOUR, common.TOUR_PAIRS, floor=5, exempt=common.TOUR_PAIR_EXEMPT)
@@ -81,3 +231,7 @@ def rules(ctx):
     common.lost_update_rule(ctx, "R2", TOUR, t_sites)
     common.lost_update_rule(ctx, "R2", TRANSITION, x_sites)
     infinity_guard(ctx, t_sites)
+    source_sets(ctx)
+    recomputed_from_new_nodes(ctx)
+    cost_delta_form(ctx, s_sites)
+    formation_update_order(ctx)
